@@ -50,10 +50,16 @@ type errorRequestMessage struct {
 	requestID graphsync.RequestID
 	err       error
 	response  chan error
+	// owner, when set, is the subscriber of the response the message is about: the request ID
+	// may meanwhile name a later response, which is not this message's business
+	owner *subscriber
 }
 
 func (erm *errorRequestMessage) handle(rm *ResponseManager) {
-	err := rm.abortRequest(rm.ctx, erm.requestID, erm.err)
+	var err error = graphsync.RequestNotFoundErr{}
+	if rm.ownedBy(erm.requestID, erm.owner) {
+		err = rm.abortRequest(rm.ctx, erm.requestID, erm.err)
+	}
 	select {
 	case <-rm.ctx.Done():
 	case erm.response <- err:
@@ -144,10 +150,13 @@ func (psm *peerStateMessage) handle(rm *ResponseManager) {
 type terminateRequestMessage struct {
 	requestID graphsync.RequestID
 	done      chan<- struct{}
+	owner     *subscriber
 }
 
 func (trm *terminateRequestMessage) handle(rm *ResponseManager) {
-	rm.terminateRequest(trm.requestID)
+	if rm.ownedBy(trm.requestID, trm.owner) {
+		rm.terminateRequest(trm.requestID)
+	}
 	select {
 	case <-rm.ctx.Done():
 	case trm.done <- struct{}{}:
